@@ -69,6 +69,7 @@ class PathState:
         self.cutmemo = {}             # simplified defining term id -> (var, term)
         self.named = {}               # defining term id -> (var, term) for named intermediate characters
         self.inputs = []              # symbolic input variables (characters / ints) created by the harness
+        self.defs = []                # (var, defining term, the asserted equality) in creation order, for partial evaluation
         self.var_constraints = {}     # var id -> constraint over that single variable asserted on this path
 
     def add(self, c):
@@ -156,35 +157,158 @@ class PathState:
                 return 'sat', m
         return 'unknown', None
 
+    def _partial_eval(self, fixed, extra=()):
+        """constant propagation through the recorded definitions (creation order) under an assignment of some inputs;
+        returns the residual constraints (equivalent to the full condition plus the assignment) or None if refuted"""
+        sub = list(fixed)
+        defcons = set()
+        residual = [v == val for v, val in fixed]
+        for r, term, con in self.defs:
+            defcons.add(con.get_id())
+            t = z3.simplify(z3.substitute(term, *sub)) if sub else term
+            if z3.is_int_value(t):
+                sub.append((r, t))
+                residual.append(r == t)
+            else:
+                residual.append(r == t)
+        for c in list(self.constraints) + list(extra):
+            if c.get_id() in defcons:
+                continue
+            t = z3.simplify(z3.substitute(c, *sub)) if sub else c
+            if z3.is_false(t):
+                return None
+            if not z3.is_true(t):
+                residual.append(t)
+        return residual
+
+    def _fast_witness(self, relaxed, extra=()):
+        """concrete local search with the compiled path condition (symx/fasteval.py): vary one input character, then pairs
+        of characters, over a small candidate alphabet; a hit is turned into a genuine z3 model by constant propagation"""
+        from . import fasteval
+        try:
+            defcons = set(con.get_id() for r, t, con in self.defs)
+            cons = [c for c in list(self.constraints) + list(extra) if c.get_id() not in defcons]
+            f, extras = fasteval.compile_path(self.inputs, [(r, t) for r, t, con in self.defs], cons)
+        except Exception:
+            return None
+        self._fast_ok = True
+        g = lambda v: relaxed.eval(v, model_completion=True).as_long()
+        try:
+            base = [g(v) for v in self.inputs]
+            tail = [g(v) for v in extras]
+        except Exception:
+            return None
+        n = len(base)
+        cand = sorted(set(base) | set(range(48, 58)) | set(range(65, 91)) | set(range(97, 123)) | {32, 45, 10})
+        t_end = time.time() + 6
+        hit = None
+        try:
+            if f(*(base + tail)):
+                hit = base
+            if hit is None:
+                for i in reversed(range(n)):
+                    old = base[i]
+                    for val in cand:
+                        base[i] = val
+                        if f(*(base + tail)):
+                            hit = list(base)
+                            break
+                    base[i] = old
+                    if hit or time.time() > t_end:
+                        break
+            if hit is None:
+                pairs = [(i, i + 1) for i in reversed(range(n - 1))] + [(i, j) for i in (2, 3) for j in range(max(4, n - 3), n)]
+                small = [c for c in cand if 48 <= c <= 57 or 65 <= c <= 90]
+                for i, j in pairs:
+                    oi, oj = base[i], base[j]
+                    for a in small:
+                        base[i] = a
+                        for b in small:
+                            base[j] = b
+                            if f(*(base + tail)):
+                                hit = list(base)
+                                break
+                        if hit:
+                            break
+                    base[i], base[j] = oi, oj
+                    if hit or time.time() > t_end:
+                        break
+        except Exception:
+            return None
+        if hit is None:
+            return None
+        fixed = [(v, z3.IntVal(x)) for v, x in zip(self.inputs, hit)] + [(v, z3.IntVal(x)) for v, x in zip(extras, tail)]
+        residual = self._partial_eval(fixed, extra)
+        if residual is None:
+            return None
+        s2 = z3.Solver()
+        s2.set('timeout', 3000)
+        s2.add(residual)
+        if s2.check() == z3.sat:
+            return s2.model()
+        return None
+
     def witness_model(self, extra=()):
         """model of the full path condition (hard constraints included) or None.
         When the solver cannot construct one directly (checksum chains), most input characters are fixed to the values of
         a model of the relaxed condition and the remaining ones are solved for (a witness is only an example; any will do)."""
         extra = list(extra)
-        if self.hard:
-            self.solver.set('timeout', min(CONFIG['query_timeout_ms'], 3000))
-        r = self.check(*extra, full=True)
-        self.solver.set('timeout', CONFIG['query_timeout_ms'])
-        self.last_status = str(r)
-        if r == z3.sat:
-            return self.solver.model()
-        if r == z3.unsat or not self.hard or not self.inputs:
-            return None
+        long_chain = len(self.hard) >= 8 and bool(self.inputs)
+        if not long_chain:
+            if self.hard:
+                self.solver.set('timeout', min(CONFIG['query_timeout_ms'], 3000))
+            r = self.check(*extra, full=True)
+            self.solver.set('timeout', CONFIG['query_timeout_ms'])
+            self.last_status = str(r)
+            if r == z3.sat:
+                return self.solver.model()
+            if r == z3.unsat or not self.hard or not self.inputs:
+                return None
         import random
         rnd = random.Random(len(self.decisions))
         if self.check(*extra) != z3.sat:
             return None
         relaxed = self.solver.model()
         n = len(self.inputs)
-        sizes = [4, 6, 6, 8, 8, 10, 10, 12]
-        for attempt, k in enumerate(sizes):
-            free = set(rnd.sample(range(n), min(n, k)))
-            fix = [v == relaxed.eval(v, model_completion=True) for i, v in enumerate(self.inputs) if i not in free]
+        m = self._fast_witness(relaxed, extra)
+        if m is not None:
+            self.last_status = 'sat'
+            return m
+        fast_tried = getattr(self, '_fast_ok', False)
+        # free sets, cheapest first: single positions (from the end: check characters usually sit there), adjacent pairs,
+        # then random larger sets; with everything else fixed the checksum chains evaluate almost concretely
+        cands = [[i] for i in reversed(range(n))] + [[i, i + 1] for i in reversed(range(n - 1))]
+        cands += [[i, j] for i in (2, 3) for j in range(n - 2, n) if j > i and n > 4]
+        cands += [None]      # the direct query on the full condition (can also prove the path infeasible)
+        cands += [rnd.sample(range(n), min(n, k)) for k in ((4, 6, 8) if long_chain else (4, 4, 6, 6, 8, 8, 10, 12))]
+        if fast_tried:
+            # the compiled local search already covered single / pair changes: only the direct query and two random sets remain
+            cands = [None] + [rnd.sample(range(n), min(n, k)) for k in (5, 8)]
+        t_budget = time.time() + 40
+        for attempt, free in enumerate(cands):
+            if time.time() > t_budget:
+                break
+            if free is None:
+                if not long_chain:
+                    continue
+                self.solver.set('timeout', 2000)
+                r = self.check(*extra, full=True)
+                self.solver.set('timeout', CONFIG['query_timeout_ms'])
+                if r == z3.sat:
+                    self.last_status = 'sat'
+                    return self.solver.model()
+                if r == z3.unsat:
+                    self.last_status = 'unsat'
+                    return None
+                continue
+            free = set(free)
+            fixed = [(v, relaxed.eval(v, model_completion=True)) for i, v in enumerate(self.inputs) if i not in free]
+            residual = self._partial_eval(fixed, extra)
+            if residual is None:
+                continue                   # refuted by constant propagation alone
             s2 = z3.Solver()
-            s2.set('timeout', 2500)
-            s2.add(self.constraints)      # includes the hard definitions
-            s2.add(extra)
-            s2.add(fix)
+            s2.set('timeout', 1500 if len(free) <= 2 else 2500)
+            s2.add(residual)
             t0 = time.time()
             r = s2.check()
             STATS['checks'] += 1
@@ -192,13 +316,6 @@ class PathState:
             if r == z3.sat:
                 self.last_status = 'sat'
                 return s2.model()
-            if attempt == 3:
-                # another relaxed model to start from
-                self.solver.push()
-                self.solver.add(z3.Or([v != relaxed.eval(v, model_completion=True) for v in self.inputs[:4]]))
-                if self.solver.check() == z3.sat:
-                    relaxed = self.solver.model()
-                self.solver.pop()
         self.last_status = 'unknown'
         return None
 
@@ -345,6 +462,7 @@ def cut(term, lo, hi, hard=False):
         st.add_hard(r == term)
     else:
         st.add(r == term)
+    st.defs.append((r, term, st.constraints[-1]))
     st.cutrec.append((r, term))
     st.var_constraints[r.get_id()] = rng
     return r
@@ -360,6 +478,7 @@ def named(term, prefix):
         return e[0]
     r = fresh_int(prefix)
     st.add(r == term)
+    st.defs.append((r, term, st.constraints[-1]))
     st.named[k] = (r, term)
     return r
 
